@@ -362,6 +362,8 @@ func inList(l []string, m string) bool {
 	return false
 }
 
+var rerunMu sync.Mutex
+
 // judge applies the C03 oracle.
 func judge(c Case, ob observed) string {
 	if !ob.success {
@@ -461,6 +463,21 @@ func TestC03Catalogue(t *testing.T) {
 			defer func() { <-sem }()
 			ob := run(c)
 			v := judge(c, ob)
+			if v != "" {
+				// What an endpoint does with a given configuration against a given scripted peer is deterministic, so a
+				// finding must reproduce: the same case once more, on its own (one thorough sweep beside two other checks
+				// produced a verdict that five later runs of the same case did not - an artefact of the saturated machine).
+				rerunMu.Lock()
+				time.Sleep(50 * time.Millisecond)
+				ob2 := run(c)
+				rerunMu.Unlock()
+				if v2 := judge(c, ob2); v2 == "" {
+					ev.Class("first-verdict-not-reproduced(inconclusive)")
+					v = ""
+				} else {
+					ob, v = ob2, v2
+				}
+			}
 			k := ""
 			if c.Peer != "honest" && (c.Auth == 0 || c.Enc == 0 || c.Integrity) {
 				b, _ := json.Marshal(c)
